@@ -678,7 +678,7 @@ func c13NumericEvaluation(c *Ctx) {
 	}
 	abbrevLit := func(s string) string {
 		t := "&" + le.lit + ".token"
-		return strings.ReplaceAll(s, "e.lexer.src["+t+".Pos:("+t+".Pos + "+t+".Len)]", "TEXT")
+		return strings.ReplaceAll(s, "e.lexer.src["+t+".Pos:("+t+".Len + "+t+".Pos)]", "TEXT")
 	}
 	var parsers []string
 	for _, call := range callsIn(ee) {
@@ -704,5 +704,5 @@ func c13NumericEvaluation(c *Ctx) {
 }
 
 func abbrevLiteral(s string) string {
-	return strings.ReplaceAll(s, "e.lexer.src[&expr.(*lang.ExprLiteral)#0.token.Pos:(&expr.(*lang.ExprLiteral)#0.token.Pos + &expr.(*lang.ExprLiteral)#0.token.Len)]", "TEXT")
+	return strings.ReplaceAll(s, "e.lexer.src[&expr.(*lang.ExprLiteral)#0.token.Pos:(&expr.(*lang.ExprLiteral)#0.token.Len + &expr.(*lang.ExprLiteral)#0.token.Pos)]", "TEXT")
 }
